@@ -502,8 +502,8 @@ impl EventParser {
                 if tuple.elems.is_empty() {
                     return "()".to_string();
                 }
-                // For now, just mark as tuple
-                "tuple".to_string()
+                // The element types are not syntactically evident
+                "unknown".to_string()
             }
             // Literal values
             Expr::Lit(lit) => match &lit.lit {
